@@ -60,8 +60,51 @@ def gen_text(rng, big=False, eol=None):
 B64 = "ABCDEFGHIJKLMNOPQRSTUVWXYZabcdefghijklmnopqrstuvwxyz0123456789+/"
 
 
+HIGH = ["\xc3\xa9", "\xc3\x9f", "\xe2\x82\xac", "\xe4\xb8\xad", "\xf0\x9d\x84\x9e", "caf\xc3\xa9", "na\xc3\xafve", "\xc2\xa0"]      # valid UTF-8: 2, 3, 4 octets
+BROKEN = ["\xff", "\xfe\xff", "\xc3", "\xe2\x82", "\x80", "\xbf\xbf", "\xf0\x9d\x84", "\xc0\xaf", "\xed\xa0\x80", "lat\xe9n1"]    # invalid UTF-8
+NULS = ["\x00", "a\x00b", "\x00\x00"]
+
+
+def gen_8bit(rng, storage):
+    """8bit / binary leaf content: valid multi-byte UTF-8, invalid UTF-8, with
+    or without NUL, in the storage class asked for: "inline" (<= 1024 octets,
+    no file name), "size" (> 1024 octets: local blob), "fname" (file name:
+    local blob whatever the size)"""
+    kind = rng.choice(["utf8", "utf8", "invalid", "mixed", "nul"])
+    pool = {"utf8": HIGH + WORDS[:6], "invalid": BROKEN + HIGH[:3] + WORDS[:4], "mixed": HIGH + BROKEN + WORDS[:5],
+            "nul": HIGH + BROKEN[:4] + NULS + WORDS[:4]}[kind]
+    lines = []
+    total = 0
+    want = rng.randint(1100, 2200) if storage == "size" else rng.choice([3, 20, 60, 200])
+    while total < want:
+        l = " ".join(rng.choice(pool) for _ in range(rng.randint(1, 8)))
+        if l.startswith(".") or l.startswith("--") or l == "":
+            l = "x" + l
+        lines.append(l)
+        total += len(l) + 2
+    content = rng.choice(["\r\n", "\r\n", "\n"]).join(lines)
+    if rng.random() < 0.3:
+        content += "\r\n"
+    if storage == "fname":
+        ctype = rng.choice(["application/octet-stream", "image/png", "application/pdf"])
+        fname = rng.choice(["a.bin", "report.pdf", "pic one.png"])
+        charset = None
+    else:
+        ctype = rng.choice(["text/plain", "text/plain", "text/html", "application/octet-stream"])
+        fname = None
+        charset = rng.choice(["utf-8", "utf-8", None, "iso-8859-1"]) if ctype.startswith("text/") else None
+    enc = rng.choice(["8bit", "8bit", "binary", None])
+    return {"leaf": True, "ctype": ctype, "charset": charset, "enc": enc, "fname": fname, "content": content, "bin": kind, "storage": storage}
+
+
+def is_bin(content):
+    return any(ord(c) > 127 or c == "\x00" for c in content)
+
+
 def gen_leaf(rng):
     r = rng.random()
+    if r < 0.11:
+        return gen_8bit(rng, rng.choice(["inline", "inline", "size", "size", "fname", "fname"]))
     ctype = rng.choice(["text/plain", "text/plain", "text/html", "application/octet-stream", "image/png", "application/pdf"])
     istext = ctype.startswith("text/")
     charset = rng.choice([None, "utf-8", "us-ascii"]) if istext else None
@@ -540,6 +583,28 @@ def fetch_cmds(msg, seq, rng, both=False, chunks=0, light=False):
         p, n = rng.choice(leaves)
         part = rnd_part(len(n["content"]))
         cmds.append(("path", {"path": p, "part": part}, "FETCH %d BODY.PEEK[%s]<%d.%d>" % (seq, ".".join(map(str, p)), part[0], part[1])))
+    if any(is_bin(n["content"]) for _, n in leaves):
+        # partial ranges on EVERY leaf of a message with 8bit / binary content: offsets inside multi-byte
+        # sequences, at 0, at the last octet, at and beyond the end, n = 0, n huge
+        for p, n in leaves:
+            c = n["content"]
+            L = len(c)
+            inside = [i for i, ch in enumerate(c) if 0x80 <= ord(ch) <= 0xBF]          # continuation octets
+            after = [i + 1 for i, ch in enumerate(c) if ord(ch) > 127 and i + 1 < L]
+            rs = []
+            if is_bin(c):
+                for o in rng.sample(inside, min(2, len(inside))) + rng.sample(after, min(1, len(after))):
+                    rs.append((o, rng.choice([1, 2, 3, 7, 64, 300])))
+                rs += [(0, rng.choice([1, 5, 100])), (max(L - 1, 0), 5), rng.choice([(L, 3), (L + 7, 2)]), (rng.randint(0, max(L - 1, 0)), 0),
+                       (rng.randint(0, max(L - 1, 0)), rng.choice([70000, 4294967295]))]
+                if L > 1024:
+                    rs += [(rng.randint(900, L - 1), rng.randint(1, 400))]
+                if light:
+                    rs = rng.sample(rs, min(4, len(rs)))
+            else:
+                rs += [(rng.randint(0, max(L, 1)), rng.choice([1, 9, 70000]))]
+            for part in rs:
+                cmds.append(("path", {"path": p, "part": part, "bin": is_bin(c)}, "FETCH %d BODY.PEEK[%s]<%d.%d>" % (seq, ".".join(map(str, p)), part[0], part[1])))
     part = rnd_part(len(msg["text"]) // 2)
     cmds.append(("text_partial", {"part": part}, "FETCH %d (BODY.PEEK[TEXT]<%d.%d> BODY.PEEK[])" % (seq, part[0], part[1])))
     part = rnd_part(60)
@@ -558,7 +623,7 @@ def fetch_cmds(msg, seq, rng, both=False, chunks=0, light=False):
             o += chunks
             k += 1
     if light:
-        keep = [c for c in cmds if c[0] == "main" or "chunk" in (c[1] or {}) or (c[0] == "path" and not (c[1] or {}).get("absent"))]
+        keep = [c for c in cmds if c[0] == "main" or "chunk" in (c[1] or {}) or (c[0] == "path" and not (c[1] or {}).get("absent") and ((c[1] or {}).get("part") is None or "bin" in (c[1] or {})))]
         rest = [c for c in cmds if c not in keep]
         cmds = keep + rng.sample(rest, min(2, len(rest)))
     return cmds
@@ -832,6 +897,15 @@ def evaluate_attrs(chk, groups, built, results, corpus_mode=False, name=None):
                         stats["bare_lf_nested_leaves"] += 1
                 if re.search(r"\r(?!\n)", r["content"]):
                     stats["lone_cr_leaves"] += 1
+                if is_bin(r["content"]):
+                    cls = "inline" if not r["blob"] else ("blob_by_size" if len(r["content"]) > 1024 else "blob_by_file_name")
+                    stats["nonascii_leaves_" + cls] = stats.get("nonascii_leaves_" + cls, 0) + 1
+                    if "\x00" in r["content"]:
+                        stats["leaves_with_nul"] = stats.get("leaves_with_nul", 0) + 1
+                    try:
+                        r["content"].encode("latin-1").decode("utf-8")
+                    except UnicodeDecodeError:
+                        stats["leaves_invalid_utf8"] = stats.get("leaves_invalid_utf8", 0) + 1
             # reconstruction is byte-transparent for part content (model side): the written body of
             # every leaf row occurs in BODY[]; for a single-part message BODY[TEXT] is the stored content
             if single:
@@ -919,6 +993,13 @@ def evaluate_attrs(chk, groups, built, results, corpus_mode=False, name=None):
                                 chk.violation("%s returned %r, the slice is %r" % (cmd, got[:80], whole[o:o + n][:80]), dict(pl, part="e"))
                     if p in known_paths and p not in bleaves:
                         continue    # container section: outside the model
+                    if info.get("bin"):
+                        stats["partials_on_8bit_leaves"] = stats.get("partials_on_8bit_leaves", 0) + 1
+                        wh = sect.get(p) or ""
+                        if 0 < info["part"][0] < len(wh) and 0x80 <= ord(wh[info["part"][0]]) <= 0xBF:
+                            stats["partials_starting_inside_a_utf8_sequence"] = stats.get("partials_starting_inside_a_utf8_sequence", 0) + 1
+                    if info["part"] is not None and info["part"][1] > 100000:
+                        continue    # judged above against the slice; too long a unary length for the in-Coq evaluation
                     item_cases.append(("([], rows_%s, SecPath %s, %s, %s)" % (tag, coq_path(p), coq_part(info["part"]), E.sub(sect.get(p) or "", got) if info["part"] else E.s(got)),
                                        {"msg": m["text"], "cmd": cmd}))
                 else:
@@ -1236,7 +1317,7 @@ def run(chk):
         chk.cov["stores_" + k] = v
     chk.cov["distinct_nontrivial"] = st.get("nontrivial", 0)
     chk.cov["rule"] = ("attrs: seeded messages of the C02 grammar (headers in random order, folded fields, display names plain/quoted/with comma/with quoted pairs; single part or multipart "
-                       "nested up to depth 3; leaf content empty / without / with one / with two final line breaks, with bare LF, lone CR and mixed line endings inside the CRLF framing (inline, nested, out of line, single-part bodies; also ending in a bare LF / lone CR), base64 one-line short and long, wrapped with CRLF or bare LF; parts > 1024 octets or with a "
+                       "nested up to depth 3; leaf content empty / without / with one / with two final line breaks, 8bit / binary content (valid 2-4 octet UTF-8, invalid UTF-8, with NUL) inline, as local blob by size and by file name, with partial ranges on every leaf of such a message (offsets inside multi-byte sequences, 0, last octet, at and beyond the end, n = 0, n = 70000 and 2^32-1), with bare LF, lone CR and mixed line endings inside the CRLF framing (inline, nested, out of line, single-part bodies; also ending in a bare LF / lone CR), base64 one-line short and long, wrapped with CRLF or bare LF; parts > 1024 octets or with a "
                        "filename are stored as blobs) delivered over LMTP and read over IMAP: one FETCH of RFC822.SIZE BODYSTRUCTURE ENVELOPE BODY[] BODY[HEADER] BODY[TEXT], one per leaf path, "
                        "absent paths, partials on leaves, TEXT, BODY[] and HEADER. Every item is (1) judged by the executable reading of C14 and (2) compared with Model/Sections.v evaluated "
                        "by vm_compute on the message's part table. distinct_nontrivial = distinct reconstructed texts (boundaries renamed). stores: one connection of a user with a role mailbox, different messages under the same message ids in the personal and the role store; "
